@@ -244,11 +244,35 @@ func genIterator(r *hxlib.Run, emit func(hxlib.Case)) {
 	}
 }
 
+// genBigPurge: more than 1000 matching records, so that bbolt's Purge has to work in several transactions
+// (it commits after every 1000 changes and re-seeks), with cursor deletes (immediate) and cursor rewrites (shadow).
+func genBigPurge(r *hxlib.Run, emit func(hxlib.Case)) {
+	for _, sh := range []string{"0", "1"} {
+		n := 1000 + r.Rng.Intn(r.Budget(400, 2500))
+		lines := []string{"cfg b " + sh, "if p 1 1 n 0 0 0 0", "pmbegin p"}
+		for i := 0; i < n; i++ {
+			pfx := "big/"
+			if i%7 == 3 {
+				pfx = "keep/"
+			}
+			meta := "0,0,0,0,0,0"
+			if i%11 == 5 {
+				meta = "0,0,5,0,0,0" // already expired: not to be counted
+			}
+			lines = append(lines, fmt.Sprintf("pmput p %s%05d J %s I=i:%d;S=s:x", pfx, i, meta, i%5))
+		}
+		lines = append(lines, "pmend p", "query p keep/ [I:eq:0]", "purge p big/ [I:ge:1]", "purge p big/ [I:ge:1]", "query p big/ [I:ge:1]", "purge p big/ -", "query p big/ -", "query p keep/ [I:eq:0]", "dump", "maintain @+1000", "dump")
+		emit(hxlib.Case{Lines: lines, NonTrivial: true, Kind: "big-purge:" + sh})
+		r.Count(fmt.Sprintf("big-purge-records:%d00s", n/100))
+	}
+}
+
 func generate(r *hxlib.Run, emit func(hxlib.Case)) {
 	st := &dbx.CondStats{}
 	regression(emit)
 	genIterator(r, emit)
-	n := r.Budget(60, 1500)
+	genBigPurge(r, emit)
+	n := r.Budget(250, 4000)
 	for i := 0; i < n; i++ {
 		for _, backend := range []string{"h", "b", "f", "g"} {
 			for _, shadow := range []bool{false, true} {
@@ -298,7 +322,7 @@ func main() {
 	defer dbx.Cleanup()
 	hxlib.Main(&hxlib.Harness{
 		Prop:     "C02",
-		Rule:     "TODO",
+		Rule: "a case is one history on one configuration (backend hashmap/bbolt/fstree/badger x shadow-delete x cache none/read(256)/read(2)/delayed(256)/delayed(2), interface options incl. Always* flags): 15-85 operations (put, put-new, get, exists, delete, absolute/relative expiry, flag setters, attribute insert, complete PutMany batches incl. an out-of-scope record, query and purge with random key prefixes and condition trees over all operators incl. ill-typed, sub-level and erroneous ones, maintenance with explicit and wall-clock threshold bracketed by raw storage dumps, flush/clear) over 10-15 keys sharing prefixes and path separators; records as typed struct, JSON wrapper (incl. missing and wrong-typed fields) and RAW wrapper, metadata with past/future absolute expiry, relative expiry, deletion stamps; plus regression cases for every repaired defect, iterator hand-over runs (free and with the producer held at the yield point in Finish), a real storage timeout, and purges of more than 1000 records on bbolt. Every case runs on the real database package and on the compiled Lean model; outputs are compared line by line; the monitor replays the case on an independent reference map. A case is non-trivial if it wrote and read; distinct by the hash of its lines.",
 		Generate: generate,
 		NewExec:  func(*hxlib.Run) hxlib.Exec { return dbx.New(nil) },
 		Monitor:  monitor,
